@@ -33,8 +33,8 @@ CFG = {
 }
 META = {
     "technique": "Lean 4 proof (map refinement, canonical-shape invariant, uniqueness of the canonical trie => root depends on content only, for any hash function) tied to trie/ by differential correspondence with an independent root",
-    "text": "Theorems get_insert, get_delete, wf_insert, wf_delete, wf_unique, run_refines, root_content_only, root_eq_spec, iter_is_content, "
-            "compact_hex_roundtrip, keybytes_hex_roundtrip hold for all tries/keys/histories in the Lean model of trie.go/encoding.go/hasher.go; "
+    "text": "Theorems get_insert, get_delete, wf_insert, wf_delete, wf_unique, run_refines, root_content_only, root_eq_spec, root_binding, iter_is_content, "
+            "compact_hex_roundtrip, keybytes_hex_roundtrip, decode_encode_node, prove_verify, verify_sound (explicit collision-freedom), commit_reopen, reopen_get hold for all tries/keys/histories in the Lean model of trie.go/encoding.go/hasher.go/node.go/proof.go; "
             "every run re-checks them and replays >1500 random histories on the real Trie/SecureTrie against the compiled model requiring identical "
             "gets, iteration, proofs and root hashes (the root recomputed by Lean's own Keccak), plus direct judgement that no single-byte "
             "alteration of a Merkle proof verifies to a different value.",
